@@ -134,9 +134,9 @@ def run(tier):
             elif mode in ("seq", "wrap"):
                 ops = 3000 if quick else 9000
             elif mode == "fnv":
-                ops = 14000 if quick else 60000      # the audit after every operation makes a history quadratic
+                ops = 14000 if quick else 30000      # the audit after every operation makes a history quadratic
             else:
-                ops = 6000 if quick else 30000
+                ops = 6000 if quick else 14000
             cases.append(mk_case("store:%s:%d" % (mode, rep), [("strstore", rng.next() & 0xFFFFFFFF, ops, mode)], {"gc": "never"}))
     results = common.run_batch("hook", cases, timeout=common.batch_timeout(tier, len(cases)), case_timeout=300)
     sizes = set()
